@@ -132,4 +132,5 @@ def run(chk, prog, tier):
     c05.check_insert_after_probe(chk, prog)
     c16.check_stale_count(chk, prog)
     c16.check_stale_counted(chk, prog)
+    c16.check_row_retired(chk, prog)
     c16.check_raw_rows(chk, prog)
